@@ -2,8 +2,9 @@
 import interp_common
 from core import rng
 
-MODULES = ["Props.C13"]
-THEOREMS = ["Props.C13.c13_advance", "Props.C13.c13_last_blank", "Props.C13.c13_stop_ends_run", "Props.C13.c13_stop_cut", "Props.C13.c13_skip_cut"]
+MODULES = ["Props.C13", "Props.RunTie"]
+THEOREMS = ["Props.C13.c13_advance", "Props.C13.c13_last_blank", "Props.C13.c13_stop_ends_run", "Props.C13.c13_stop_cut", "Props.C13.c13_skip_cut",
+            "Props.RunTie.consider_line_source_is_model", "Props.RunTie.advance_source"]
 
 
 def structured(seed, i):
